@@ -5,6 +5,7 @@ cannot raise in any reachable world.  Property theorems only.
 (The codec's `parse_only_valueerror` and the trxcon half are proved in their own modules.)
 -/
 import OsmoVerif.Lemmas.WorldSane
+import OsmoVerif.Lemmas.WorldExamples
 
 namespace OsmoVerif.Props.C14
 open OsmoVerif OsmoVerif.World OsmoVerif.PyStr
@@ -116,5 +117,48 @@ theorem built_run_never_raises (seed : Nat) (extra : List (Nat × Nat × Nat)) (
     (hops : ∀ op ∈ ops, op.Octets ∧ op.InRange w.trxs.length) :
     ∀ r ∈ (run w ops).2, r.exc = none :=
   (run_ok ops w (build_sane hb) hops).2
+
+/-! ### non-vacuity -/
+
+/-- the default application starts up and is sane -/
+example : ∃ w, build 0 [] = .ok w ∧ Sane w ∧ w.trxs.length = 2 :=
+  ⟨_, rfl, sane_build 0 [] _ rfl, rfl⟩
+
+/-- an application with two child transceivers on the BTS side -/
+example : ∃ w, build 7 [(addrBts, btsPort, 1), (addrBts, btsPort, 2)] = .ok w ∧ Sane w ∧
+    w.trxs.length = 4 :=
+  ⟨_, rfl, sane_build 7 [(addrBts, btsPort, 1), (addrBts, btsPort, 2)] _ rfl, rfl⟩
+
+/-- hostile control datagrams: ignored or answered −1, never an exception, nothing changes -/
+example : Ex.excs Ex.w0 [[0xff, 0xfe], [0xc0, 0x80], Ex.z "CMD RXTUNE 1e3", Ex.z "CMD SETFH a b c d",
+      Ex.z "CMD FAKE_TOA 1 x", Ex.z "CMD MEASURE ٣", lit "CMD POWERON" ++ [0, 0, 0]] =
+    [none, none, none, none, none, none, none] := by decide +kernel
+
+/-- hostile data datagrams: short, unknown version, wrong version for the negotiated header -/
+example : (recvDataMsg Ex.w0 1 []).exc = none ∧ (recvDataMsg Ex.w0 1 [0x20, 0, 0, 0, 0, 0]).exc = none ∧
+    (recvDataMsg (Ex.live id) 1 (Ex.burst 0x10 5)).world.trxs.map (·.txQueue.length) = [0, 1] ∧
+    (recvDataMsg (Ex.live id) 1 (Ex.burst 0 5)).world.trxs.map (·.txQueue.length) = [0, 2] := by
+  decide +kernel
+
+/-- a live world (both sides tuned to each other and running, one burst due): the tick forwards
+the burst and sends the clock indications — no exception -/
+example : (tick (Ex.live id)).exc = none ∧ (tick (Ex.live id)).out.length = 3 := by decide +kernel
+
+/-- … and each clause of the invariant is needed: with a negative ToA threshold `randint` raises
+ValueError, with a zero drop period the tick raises ZeroDivisionError, with a hopping object that
+`__init__` would have refused (HSN 127) the generator raises IndexError — the states the repaired
+FAKE_TOA / FAKE_DROP / SETFH handlers keep out. -/
+example : (tick (Ex.live (fun t => { t with toaThr := -1 }))).exc = some .valueError ∧
+    (tick (Ex.live (fun t => { t with ciThr := -1, hdrVer := 1 }))).exc = some .valueError ∧
+    (tick (Ex.live (fun t => { t with dropAmount := 1, dropPeriod := 0 }))).exc =
+      some .zeroDivisionError ∧
+    (tick (Ex.live id (fun t => { t with fh := some ⟨127, 0, [(1, 2)], 1⟩ }))).exc =
+      some .indexError := by decide +kernel
+
+/-- the commands that would create such states are refused and leave the world sane -/
+example : Ex.replies Ex.w0 [Ex.z "CMD FAKE_TOA 0 -1", Ex.z "CMD FAKE_CI 0 -1", Ex.z "CMD FAKE_DROP 1 0",
+      Ex.z "CMD SETFH 127 0 1 2"] =
+    [[Ex.z "RSP FAKE_TOA -1 0 -1"], [Ex.z "RSP FAKE_CI -1 0 -1"], [Ex.z "RSP FAKE_DROP -1 1 0"],
+     [Ex.z "RSP SETFH -1 127 0 1 2"]] := by decide +kernel
 
 end OsmoVerif.Props.C14
